@@ -871,8 +871,22 @@ impl CodeGenerator {
                 compile_expr!(self, &terms[1], term_loc, code)
             }
             _ => {
-                code.push_back(instr!("$fail"));
-                return Ok(());
+                // the left side is not a number, so the goal cannot succeed;
+                // but the right side is evaluated first, and its errors are
+                // raised: the value is compared with an atom, which fails.
+                let cell = Cell::default();
+
+                self.marker
+                    .mark_non_var::<QueryInstruction>(Level::Shallow, term_loc, &cell, code);
+
+                code.push_back(instr!(
+                    "put_constant",
+                    Level::Shallow,
+                    atom_as_cell!(atom!("[]")),
+                    temp_v!(1)
+                ));
+
+                compile_expr!(self, &terms[1], term_loc, code)
             }
         };
 
